@@ -153,7 +153,7 @@ fn case_strategy(tier: Tier, ex: Excl, wx: crate::props::c02::WhereExcl) -> Boxe
             let ops = prop::collection::vec(op, 8..=tier.pick(50, 90));
             let tail = prop::collection::vec(prop_oneof![3 => Just(Op::Flush), 2 => (1u8..=2).prop_map(Op::Compact), 2 => Just(if ex.no_restart { Op::Barrier } else { Op::Restart })], 1..=2);
             let num_fields: Vec<&'static str> = if ex.float_field { vec!["x", "y", "o"] } else { vec!["x", "y", "f", "o"] };
-            let num_fields: Vec<&'static str> = num_fields.into_iter().filter(|n| !(ex.nullable && *n == "o")).collect();
+            // (the open finding about nullable fields concerns a null BY key; nullable metric inputs stay generated)
             let any_fields: Vec<&'static str> = {
                 let mut v = num_fields.clone();
                 v.push("e");
